@@ -1235,7 +1235,7 @@ def run(chk, ctx):
                 'GIM and uncertainties (once per run in quick, 8 times in thorough); then LRT_adjust/Wald_stat/score_stat with 1, 2 and 3 nested indices out of 3 correlated '
                 'parameters x multinom (the index of theta may be nested), and every entry point x every kind of MASK PATTERN in which model, data and bootstraps differ '
                 '(data masks low-frequency/arbitrary entries that model and bootstraps do not; data and bootstraps alike; every bootstrap its own set; the model masks entries the '
-                'data does not; both, overlapping; corners unmasked in the model or in the data) on 11-16 samples, the closed forms summed over the entries masked in neither the '
+                'data does not; both, overlapping; corners unmasked in the model or in the data; corners unmasked in the model and in the bootstraps) on 11-16 samples, the closed forms summed over the entries masked in neither the '
                 'model nor the data (H) / the bootstrap (score), theta of a multinomial fit from the same entries; then random draws of the same options with nested index sets; eps log-uniform in [1e-4, 1e-1], each run also at '
                 'eps/2; bootstrap lists permuted; histories of 3-6 entry-point calls on two models sharing ns/pts and the null value of the nested parameter, each compared with '
                 'the same call on an empty cache; sum_chi2_ppf with 2-4 weights, scalar / list / tuple / ndarray / 0-d arguments, zeros, unnormalised weights. '
